@@ -1,4 +1,4 @@
-use super::{CallError, FunctionMap, check};
+use super::{FunctionMap, check};
 use crate::Scope;
 use crate::css::{CssString, Value};
 use crate::value::ListSeparator;
